@@ -77,10 +77,12 @@ def work_chunk(start, end, n_samples):
     }
     for i in range(start, end):
         want = i < n_samples
-        res = forked(kernel.child_run, (eng, prop, tier, seed, i, want))
+        res = forked(kernel.child_run, (eng, prop, tier, seed, i, want), soft=kernel.SOFT_STALL_S)
         if "harness_error" in res:
             agg["harness_errors"].append((i, res["harness_error"]))
             continue
+        if any(f.get("features", {}).get("wall") for f in res.get("failures", [])):
+            agg["aborted"] = True  # something spins: do not spend the wall-clock backstop on every remaining run
         agg["runs"] += 1
         agg["ops"] += res.get("ops", 0)
         agg["faults"].update(res.get("faults", {}))
@@ -104,6 +106,8 @@ def work_chunk(start, end, n_samples):
             agg["failing"].append((i, f["clause"], sig, f.get("detail", ""), f.get("features", {}), kid))
             if kid is None and sig not in agg["first_program"]:
                 agg["first_program"][sig] = (i, res["program"], res["run_seed"])
+        if agg.get("aborted"):
+            break
     for k in ("shapes", "states", "orders"):
         agg[k] = sorted(agg[k])
     return agg
@@ -113,7 +117,7 @@ def verify_digests(indices):
     eng, prop, tier, seed = _W["engine"], _W["prop"], _W["tier"], _W["seed"]
     out = {}
     for i in indices:
-        res = forked(kernel.child_run, (eng, prop, tier, seed, i, False))
+        res = forked(kernel.child_run, (eng, prop, tier, seed, i, False), soft=kernel.SOFT_STALL_S)
         out[i] = res.get("digest", "harness_error:" + res.get("harness_error", "?")[-200:])
     return out
 
@@ -121,11 +125,12 @@ def verify_digests(indices):
 def minimise_task(program, clause, sig):
     eng, prop = _W["engine"], _W["prop"]
     # confirm first
-    res = forked(kernel.child_replay, (eng, prop, program))
+    res = forked(kernel.child_replay, (eng, prop, program), soft=kernel.SOFT_STALL_S)
     if not kernel._same_failure(res, clause, sig):
         return {"reproduced": False, "result": res}
-    small, tests = kernel.minimise(eng, prop, program, clause, sig)
-    res = forked(kernel.child_replay, (eng, prop, small))
+    # a failure found by the wall-clock backstop costs SOFT_STALL_S per failing candidate: shrink only a little
+    small, tests = kernel.minimise(eng, prop, program, clause, sig, budget=8 if '"wall": true' in sig else 1500)
+    res = forked(kernel.child_replay, (eng, prop, small), soft=kernel.SOFT_STALL_S)
     fail = [f for f in res.get("failures", []) if f["clause"] == clause and feature_sig(f) == sig][0]
     return {"reproduced": True, "program": small, "tests": tests, "failure": fail}
 
@@ -173,6 +178,7 @@ def run_check(prop, tier, seed, workers=None, runs_override=None, quiet=False):
     samples = []
     leg_results = []
     n_samples = 3
+    stall_abort = False
 
     def harness_fail(msg):
         print("HARNESS-ERROR: " + msg)
@@ -199,6 +205,8 @@ def run_check(prop, tier, seed, workers=None, runs_override=None, quiet=False):
             dup_idx = [i for i in range(lo, hi) if i % DUP_MOD == 7]
             vfuts = [pool.submit(verify_digests, dup_idx[k : k + 20]) for k in range(0, len(dup_idx), 20)]
             for fu in futs:
+                if fu.cancelled():
+                    continue
                 agg = fu.result(timeout=max(1, deadline - time.time()))
                 for k in ("runs", "ops", "nontrivial"):
                     tot[k] += agg[k]
@@ -214,10 +222,18 @@ def run_check(prop, tier, seed, workers=None, runs_override=None, quiet=False):
                 harness_errors.extend(agg["harness_errors"])
                 digests.update(agg["digests"])
                 samples.extend(agg["samples"])
+                if agg.get("aborted") and not stall_abort:
+                    stall_abort = True
+                    for f2 in futs:
+                        f2.cancel()  # queued chunks would only spend the backstop again
                 if harness_errors:
                     for i, e in harness_errors[:3]:
                         print("harness error in run %s:\n%s" % (i, e))
                     return harness_fail("%d runs failed inside the harness" % len(harness_errors))
+            if stall_abort:
+                for fu in vfuts:
+                    fu.cancel()
+                break
             ver = {}
             for fu in vfuts:
                 ver.update(fu.result(timeout=max(1, deadline - time.time())))
@@ -366,7 +382,7 @@ def replay_file(path):
     if hasattr(eng, "prepare_main"):
         eng.prepare_main(prop, min(8, os.cpu_count() or 1))
     eng.preload(prop)
-    res = forked(kernel.child_replay, (eng, prop, doc["program"]))
+    res = forked(kernel.child_replay, (eng, prop, doc["program"]), soft=kernel.SOFT_STALL_S)
     if "harness_error" in res:
         print(res["harness_error"])
         print("HARNESS-ERROR: replay crashed inside the harness")
